@@ -81,3 +81,19 @@ func init() {
 		propertyMeta[k] = m
 	}
 }
+
+// round7Bounds: harnesses added after the seventh round of seeded changes (DESIGN.md §14.10).
+var round7Bounds = map[string][]string{
+	"C02": {"C02_NFTAddQuantityWideNonce, C02_NFTBurnWideNonce: nonce argument of 8 and 9 arbitrary bytes (values at and beyond 2^64): the supply oracle plus 'an NFT operation never writes an entry that was a fungible holding'"},
+	"C10": {"C10_EmitMultiTransferManyItems: 255, 256 and 257 copies of one concrete fungible item to another shard: the announced count is the number of items"},
+	"C11": {"numeric arguments of the adversarial family: lengths {0,1,8,9} in the quick tier too"},
+	"C15": {"write monitor (function object, package-level variables, spare capacity included) during every harness of the family"},
+}
+
+func init() {
+	for k, v := range round7Bounds {
+		m := propertyMeta[k]
+		m.Bounds = append(m.Bounds, v...)
+		propertyMeta[k] = m
+	}
+}
